@@ -24,6 +24,7 @@ import (
 	"fmt"
 	"github.com/polynetwork/poly/common/constants"
 
+	"github.com/ontio/ontology-crypto/ec"
 	"github.com/ontio/ontology-crypto/keypair"
 	"github.com/polynetwork/poly/common"
 	"github.com/polynetwork/poly/core/payload"
@@ -274,6 +275,9 @@ func (this *Sig) Deserialize(source *common.ZeroCopySource) error {
 		if err != nil {
 			return err
 		}
+		if err := validatePublicKey(pk); err != nil {
+			return err
+		}
 		pubKeys[i] = pk
 	}
 	this.PubKeys = pubKeys
@@ -282,6 +286,18 @@ func (this *Sig) Deserialize(source *common.ZeroCopySource) error {
 		return errors.New("[Sig] deserialize read M error")
 	}
 	this.M = m
+	return nil
+}
+
+// validatePublicKey rejects an elliptic-curve key whose point is not on its curve. The key codec takes the
+// uncompressed form (x, y) as it comes; a signature "by" an off-curve point can be computed without any private key,
+// while the address, derived from the compressed form, is that of the genuine key with the same x.
+func validatePublicKey(pk keypair.PublicKey) error {
+	if k, ok := pk.(*ec.PublicKey); ok {
+		if k.PublicKey == nil || k.Curve == nil || k.X == nil || k.Y == nil || !k.Curve.IsOnCurve(k.X, k.Y) {
+			return errors.New("[Sig] public key is not a point of its curve")
+		}
+	}
 	return nil
 }
 
